@@ -4,6 +4,7 @@ import (
 	"errors"
 	"fmt"
 	"io"
+	"time"
 )
 
 // Step is one Read call of a scripted reader: deliver N bytes (capped by the
@@ -175,4 +176,89 @@ func (c ChunkLenReader) Len() int {
 		return n
 	}
 	return len(r.Data) - r.pos
+}
+
+// DeadlineReader is a reader with the deadline methods of a net.Conn whose
+// peer is slow: between any two Reads an hour passes on its own clock. It
+// honours a read deadline the consumer sets (a Read after the deadline fails
+// with a timeout error, as a connection does) and ignores none; a consumer
+// that sets no deadline of its own never sees a timeout. The slowness is
+// virtual (the clock is the wall clock plus an offset), so nothing waits.
+type DeadlineReader struct {
+	*ScriptReader
+	offset   time.Duration
+	deadline time.Time
+	Calls    int // SetReadDeadline / SetDeadline calls with a non-zero time
+}
+
+type deadlineExceeded struct{}
+
+func (deadlineExceeded) Error() string {
+	return "i/o timeout (read deadline set by the consumer exceeded)"
+}
+func (deadlineExceeded) Timeout() bool   { return true }
+func (deadlineExceeded) Temporary() bool { return true }
+
+func (d *DeadlineReader) Read(p []byte) (int, error) {
+	if !d.deadline.IsZero() && time.Now().Add(d.offset).After(d.deadline) {
+		return 0, deadlineExceeded{}
+	}
+	n, err := d.ScriptReader.Read(p)
+	d.offset += time.Hour
+	return n, err
+}
+
+func (d *DeadlineReader) SetReadDeadline(t time.Time) error {
+	d.deadline = t
+	if !t.IsZero() {
+		d.Calls++
+	}
+	return nil
+}
+
+func (d *DeadlineReader) SetDeadline(t time.Time) error { return d.SetReadDeadline(t) }
+
+// Writers with the optional interfaces of the io package on top of a
+// ScriptWriter: code that type-asserts its writer takes other paths for them.
+
+// ByteScriptWriter is also an io.ByteWriter.
+type ByteScriptWriter struct{ *ScriptWriter }
+
+func (w ByteScriptWriter) WriteByte(c byte) error {
+	if n, err := w.ScriptWriter.Write([]byte{c}); n != 1 {
+		return err
+	}
+	return nil
+}
+
+// StringScriptWriter is also an io.StringWriter.
+type StringScriptWriter struct{ *ScriptWriter }
+
+func (w StringScriptWriter) WriteString(s string) (int, error) {
+	return w.ScriptWriter.Write([]byte(s))
+}
+
+// ReaderFromScriptWriter is also an io.ReaderFrom.
+type ReaderFromScriptWriter struct{ *ScriptWriter }
+
+func (w ReaderFromScriptWriter) ReadFrom(r io.Reader) (int64, error) {
+	b, rerr := io.ReadAll(r)
+	n, err := w.ScriptWriter.Write(b)
+	if err == nil {
+		err = rerr
+	}
+	return int64(n), err
+}
+
+// AllScriptWriter has all three.
+type AllScriptWriter struct{ *ScriptWriter }
+
+func (w AllScriptWriter) WriteByte(c byte) error {
+	return ByteScriptWriter{w.ScriptWriter}.WriteByte(c)
+}
+func (w AllScriptWriter) WriteString(s string) (int, error) {
+	return w.ScriptWriter.Write([]byte(s))
+}
+func (w AllScriptWriter) ReadFrom(r io.Reader) (int64, error) {
+	return ReaderFromScriptWriter{w.ScriptWriter}.ReadFrom(r)
 }
